@@ -668,9 +668,9 @@ func ParseLines(pkg, path string, lines []Line) (*File, error) {
 			curLemma.Induction = strings.TrimSpace(rest)
 		case "uses":
 			if curLemma != nil {
-				curLemma.Uses = append(curLemma.Uses, strings.Fields(rest)...)
+				curLemma.Uses = append(curLemma.Uses, splitUses(rest)...)
 			} else if cur != nil {
-				cur.Uses = append(cur.Uses, strings.Fields(rest)...)
+				cur.Uses = append(cur.Uses, splitUses(rest)...)
 			} else {
 				return nil, fmt.Errorf("%s: uses outside lemma/func", l.pos)
 			}
@@ -1026,4 +1026,32 @@ func parseSort(rest string, pos Position) (*SortDecl, error) {
 		}
 	}
 	return sd, nil
+}
+
+// splitUses splits the operand of `uses` into lemma references: names, or name(arg, ...) instantiations (blanks
+// inside the parentheses do not separate).
+func splitUses(s string) []string {
+	var out []string
+	depth, start := 0, -1
+	for i, r := range s {
+		switch {
+		case r == '(':
+			depth++
+		case r == ')':
+			depth--
+		case (r == ' ' || r == '\t') && depth == 0:
+			if start >= 0 {
+				out = append(out, s[start:i])
+				start = -1
+			}
+			continue
+		}
+		if start < 0 {
+			start = i
+		}
+	}
+	if start >= 0 {
+		out = append(out, s[start:])
+	}
+	return out
 }
